@@ -316,6 +316,10 @@ func Pairs(v primitive.ProtocolVersion, all bool) [][2]*frame.Frame {
 		}
 	}
 	var out [][2]*frame.Frame
+	// envelopes without a body in both directions (exactly one header long): OPTIONS -> SUPPORTED, REGISTER -> READY
+	out = append(out,
+		[2]*frame.Frame{frame.NewFrame(v, 1, &message.Options{}), frame.NewFrame(v, 1, &message.Supported{Options: map[string][]string{"CQL_VERSION": {"3.0.0"}}})},
+		[2]*frame.Frame{frame.NewFrame(v, 1, &message.Register{EventTypes: []primitive.EventType{primitive.EventTypeSchemaChange}}), frame.NewFrame(v, 1, &message.Ready{})})
 	n := len(resps)
 	if len(reqs) > n {
 		n = len(reqs)
